@@ -73,6 +73,8 @@ class Ang:
     def __mul__(s, o):
         if isinstance(o, complex) and o == 1j:
             return ImAng(s)
+        if isinstance(o, SC):
+            return o * s.value()        # the angle as a plain number (radians / degrees) times a complex number
         if isinstance(o, float) and o == math.pi:
             return Ang(s.d, s.c, s.s, s.unit, True)
         if isinstance(o, (int, float)):
